@@ -201,7 +201,18 @@ fn symbase_case(id: &str, r: &mut Rng, root: &Path, home: &Path, out: &mut Strin
     let csv = app::txs_to_csv(&c.rows);
     let _ = std::fs::write(root.join("in.csv"), &csv);
     let sec0 = c.rows[0].security.clone();
-    let good = [format!("{}:10:100", sec0), "ZZZ:1.5:30".to_string(), format!("{}:0:0", sec0), "QQQ:7:0".to_string()];
+    let good = [
+        format!("{}:10:100", sec0),
+        "ZZZ:1.5:30".to_string(),
+        format!("{}:0:0", sec0),
+        "QQQ:7:0".to_string(),
+        // tickers are free text up to the first colon; costs may have more than two decimals
+        "BRK-B:10:4000".to_string(),
+        "XIU.TO:5:100.125".to_string(),
+        "BRK/B:1:2".to_string(),
+        format!("{}:8:1000.1255", sec0),
+        "A B:3:9".to_string(),
+    ];
     let bad = ["", "   ", "FOO:10", ":1:1", "FOO:-1:5", "FOO:x:1", "FOO:1:y", "FOO:1:2:3", "FOO", "\t"];
     let mut specs: Vec<String> = Vec::new();
     for _ in 0..(1 + r.below(2)) {
